@@ -99,6 +99,12 @@ def sig(e):
     return (e["k"], e["plus"], e["zplus"], tuple(feats), tuple(e.get("links", [])))
 
 
+def _rt_job(args):
+    import peptacular as pp
+    warnings.simplefilter("ignore")
+    return rt_event(pp, *args)
+
+
 def run(tier, seed, rep):
     warnings.simplefilter("ignore")
     import peptacular as pp
@@ -110,18 +116,32 @@ def run(tier, seed, rep):
     r = core.model_check("MC_ProForma", "MC_ProForma_thorough.cfg" if thorough else "MC_ProForma.cfg",
                          env={"OUT_FILE": str(out)}, workers=8, xmx="6g")
     rep.add_mc("MC_ProForma", r)
-    evs = []
-    with open(out) as fh:
-        for i, line in enumerate(fh):
-            c = json.loads(line)
-            A = c["A"]
-            evs.append(rt_event(pp, f"G{i}.0", A, False, False, c["text0"]))
-            if c["text1"] != c["text0"]:
-                evs.append(rt_event(pp, f"G{i}.1", A, True, False, c["text1"]))
-            if c["text2"] != c["text1"]:
-                evs.append(rt_event(pp, f"G{i}.2", A, True, True, c["text2"]))
-    res = core.validate_traces("Trace_ProForma", evs, "C01")
-    rep.add_trace("tlc_generated_cases", evs, res, sig=sig)
+    # the cases come in six files (see MC_ProForma!EmitCases); they are stepped through the real parser in batches so
+    # that the thorough tier (1.1 million annotations) stays within memory
+    def batches():
+        jobs, i = [], 0
+        for part in range(1, 7):
+            with open(f"{out}.{part}") as fh:
+                for line in fh:
+                    if not line.strip():
+                        continue
+                    c = json.loads(line)
+                    A = c["A"]
+                    jobs.append((f"G{i}.0", A, False, False, c["text0"]))
+                    if c["text1"] != c["text0"]:
+                        jobs.append((f"G{i}.1", A, True, False, c["text1"]))
+                    if c["text2"] != c["text1"]:
+                        jobs.append((f"G{i}.2", A, True, True, c["text2"]))
+                    i += 1
+                    if len(jobs) >= 150000:
+                        yield jobs
+                        jobs = []
+        if jobs:
+            yield jobs
+    for b, jobs in enumerate(batches()):
+        evs = core.pmap(_rt_job, jobs, chunksize=64)
+        res = core.validate_traces("Trace_ProForma", evs, "C01")
+        rep.add_trace(f"tlc_generated_cases_{b}", evs, res, sig=sig)
 
     # stage C: seeded abstract annotations, single chains
     evs = []
